@@ -19,6 +19,8 @@ CONSTANTS
     MaxPanics = 0
     FixF2 = TRUE
     FixF3 = FALSE
+    InitEnc = "proto"
+    MaxMigrations = 0
 VIEW view
 INVARIANTS
     StateIsFullReplay
